@@ -131,7 +131,8 @@ func hostcall(self *VM, function string, span errors.Span, args []*value.Value) 
 		remainingArgs := make([]value.Value, 0)
 
 		if remainingLen > 0 {
-			for i := argcOffsetCount; i < len(args); i++ {
+			// The trigger arguments were pushed in program order, so they are popped last-first.
+			for i := len(args) - 1; i >= argcOffsetCount; i-- {
 				remainingArgs = append(remainingArgs, *args[i])
 			}
 		}
@@ -267,16 +268,10 @@ func (self *VM) SpawnAsync(
 		index++
 	}
 
-	// Invert arguments so that they match the order in which they would be pushed onto the stack.
-	argCIdx := len(invocation.Args) - 1
-	invertedArgs := make([]value.Value, argCIdx+1)
-	for idx := argCIdx; idx >= 0; idx-- {
-		invertedArgs[argCIdx-idx] = invocation.Args[idx]
-	}
-
 	return self.spawnCoreInternal(
 		invocation.Function,
-		invertedArgs,
+		// Arguments are pushed in declared order, just like a compiled call does it.
+		invocation.Args,
 		debuggerOut,
 		debuggerResume,
 		invocation.LiteralName,
@@ -323,16 +318,10 @@ func (self *VM) SpawnSync(
 		index++
 	}
 
-	// Invert arguments so that they match the order in which they would be pushed onto the stack.
-	argCIdx := len(invocation.Args) - 1
-	invertedArgs := make([]value.Value, argCIdx+1)
-	for idx := argCIdx; idx >= 0; idx-- {
-		invertedArgs[argCIdx-idx] = invocation.Args[idx]
-	}
-
 	coreHandle := self.spawnCoreInternal(
 		invocation.Function,
-		invertedArgs,
+		// Arguments are pushed in declared order, just like a compiled call does it.
+		invocation.Args,
 		debuggerOut,
 		debuggerResume,
 		invocation.LiteralName,
